@@ -32,7 +32,7 @@ for p in props:
     c = claimed[pid]
     text = c['text']
     if level != 'proof':
-        text += ' NOTE: some obligations of this property fail on the current tree because of genuine defects that are recorded in known_findings.json (test-pinned or not small to repair); the run reports them as KNOWN-FINDING, every other obligation is discharged, and the evidence level is therefore "other" (discharged != obligations), not "proof".'
+        text += ' NOTE: some obligations of this property, or some inputs of its bounded stand-in, fail on the current tree because of genuine defects that are recorded in known_findings.json (test-pinned or not small to repair); the run reports them as KNOWN-FINDING, every other obligation is discharged, and the evidence level is therefore "other", not "proof".'
     checks.append({
         "property_id": pid,
         "quick_cmd": f"./bin/govc check -p {pid} -tier quick",
